@@ -13,7 +13,7 @@ CLAIMS = {
             "TLC judges every observation against Contract!RevExact. Numeric agreement is a ~5e-7 projection, not a proof of the formulas", "4 C01"),
     "C02": ("model_checking", "same configuration space; full forward-mode matrix and tangent structure judged by TLC against Contract!FwdExact", "4 C02"),
     "C04": ("model_checking", "same configuration space; oracle-free: reverse and forward matrices must agree to 1e-11 on the whole basis and both be "
-            "linear (Contract!Adjoint), judged by TLC", "4 C04"),
+            "linear, also through the linear functional sum o f (Contract!Adjoint), judged by TLC", "4 C04"),
     "C05": ("model_checking", "same configuration space; structure (shape, real/complex, dtype) of every VJP result equals the argument's, of every JVP "
             "result the output's (Contract!GradInArgSpace, no numerics), judged by TLC; Shape.tla's predicted shapes are cross-checked against NumPy", "4 C05"),
     "C06": ("model_checking", "same configuration space; primal under reverse, forward and nested differentiation identical to plain NumPy (value, shape, "
@@ -41,13 +41,13 @@ CLAIMS = {
             "(tree, program, output mode, whole-container use, leaf memory layout) replayed on autograd's container boxes and misc.flatten, judged by TLC; every way of "
             "reading a component of the library's own named-tuple results (Contract!C12, no raising)", "4 C12"),
     "C13": ("model_checking", "VSpaceAlg.tla: the algebra of autograd's vector spaces over structure trees; axioms model-checked; every enumerated "
-            "(space, vectors, scalars) replayed on the real vspace for all dtypes/containers and judged by TLC (operations = algebra, freshness, accumulation into caller-built vectors, addend intact, == and != of spaces, memory layouts)", "4 C13"),
+            "(space, vectors, scalars) replayed on the real vspace for all dtypes/containers and judged by TLC (operations = algebra, freshness incl. add with a zero operand, accumulation into caller-built vectors, addend intact, closure incl. numpy.linalg named-tuple spaces, extended-precision inner product, == and != of spaces, memory layouts)", "4 C13"),
     "C14": ("model_checking", "AGM programs whose output is independent of the variable or depends on it only through a notrace primitive, every "
             "depth and mode; replayed and judged by TLC; derivatives declared zero on array arguments are exact zeros of the argument's shape", "4 C14"),
     "C15": ("exploration", "Dispatch.tla models the decision table of the primitive wrapper (NoSilentDrop); the whole exported namespace (autograd.numpy, "
             ".linalg, .fft, .random, ArrayBox attributes) is swept with call templates NumPy accepts, each positional float argument (and all of them at "
             "once, and with special values in the other arguments) is differentiated in both modes; TLC judges every recorded row (varies & zero => "
-            "violation, gross disagreement => violation; the SciPy-compatible namespaces likewise) and 28 guard cases that must raise (incl. Python's conversion protocols); loud failures caught and "
+            "violation, gross disagreement => violation; the SciPy-compatible namespaces likewise) and 33 guard cases that must raise (incl. Python's conversion protocols); loud failures caught and "
             "retried at every nesting depth (AGM fault family) must leave exact derivatives", "4 C15"),
     "C16": ("model_checking", "Operators.tla: every differential operator defined as a contraction of one symbolic integer Jacobian/Hessian; operator "
             "identities model-checked; 29 operators (incl. operators of operators through secondary outputs) x shapes x argument layouts replayed on the real package, shape and entries compared exactly by TLC", "4 C16"),
@@ -56,7 +56,7 @@ CLAIMS = {
             "the same contract on array arguments of different shapes (RuleSpace!ExtendFamily)", "4 C17"),
     "C18": ("exploration", "Checker.tla: the recursion of check_grads over modes and order is model-checked (EveryModePathChecked) and bound to the code by "
             "probes on check_vjp/check_jvp (explicit and default modes, fresh and after a call that lacked a forward rule); the verdict table (correct rules "
-            "accepted, planted defects incl. NaN/inf entries rejected) is sampled with 40/400 random projections "
+            "accepted, planted defects incl. NaN/inf entries and defects in a later element of a container-valued output rejected) is sampled with 40/400 random projections "
             "per cell and judged by TLC against a binomial threshold: statistical evidence, not a decision", "4 C18"),
     "C19": ("model_checking", "AGM with faults at every instruction of the innermost function, in the backward pass and at trace exit, caught at every "
             "enclosing level, followed by canaries; replayed in one process per worker and judged by TLC; re-wrapping and other-tracer histories; the rule "
